@@ -153,7 +153,8 @@ def check_pipeline(ctx, f, K, seq, tag=""):
         ctx.check(E.is_compiler() and E.supports_compilation(ck), tag + "step-compilation-kind",
                   f"step {i}: {E.__name__} does not support {ck.name}")
         ctx.check(c.default == ck, tag + "step-default", f"step {i}: compiler default is {c.default}, requested {ck.name}")
-        ctx.require(And(E.supports(kindlib.clone(k))), tag + "step-rejects-intermediate-kind",
+        sup = E.supports(kindlib.clone(k))
+        kindlib.require(ctx, lambda sup=sup: And(sup), tag + "step-rejects-intermediate-kind",
                     f"step {i} ({E.__name__}, {ck.name}) does not support the kind produced by the compilers before it; sequence {[x.name for x in seq]}")
         k = E.resulting_problem_kind(kindlib.clone(k), ck)
     ctx.witness(f"pipeline-{len(seq)}")
